@@ -77,6 +77,12 @@ Definition splice_hyp (K : Z) (s : list Z) (g : tg) (a : Z) (b : option Z) (alig
   && (align || ((a mod K =? 0) && (0 <=? a) && (a <=? dur K s)
                 && match b with Some x => (x mod K =? 0) && (0 <=? x) && (x <=? dur K s) | None => true end)).
 
+(* the target is on sample k >= 1 of the recording and sample k-1 is zero: the first leftward window ends with that
+   sample, so the search cannot report that there is no crossing (Audio/ZeroCrossFound.v proves it of the model) *)
+Definition zero_before (K : Z) (s : list Z) (t st : Z) : bool :=
+  (2 * K <=? st) && (t mod K =? 0) && (1 <=? t / K) && (t / K <=? Z.of_nat (length s))
+  && (nth (Z.to_nat (t / K - 1)) s 1 =? 0).
+
 Definition C18oracle (c : C18case) : bool :=
   match c with
   | ZC K s t st _ out =>
@@ -84,7 +90,8 @@ Definition C18oracle (c : C18case) : bool :=
       | Ok x => (0 <=? x) && (x <=? Z.of_nat (length s) * K)
                 && (if t mod K =? 0 then x mod K =? 0 else true)
                 && (x mod K =? 0) && crossingb s (Z.to_nat (x / K))
-      | Err e => if st <? 2 * K then err_eqb e ArgumentError else err_eqb e FindZeroCrossingError
+      | Err e => (if st <? 2 * K then err_eqb e ArgumentError else err_eqb e FindZeroCrossingError)
+                 && negb (zero_before K s t st)
       end
   | TgZcC K s st adjP adjI g out =>
       (* only timestamps change, each to a crossing on a sample; tier order, entry counts and labels stay
